@@ -292,7 +292,7 @@ func runShutdownSchedule(acts []string) (obs string, viol []string) {
 // c11ShutdownFirst: Shutdown completes before Serve is even called (a start-up race the caller cannot exclude:
 // `go s.ListenAndServe(...)` followed at once by Shutdown). Judged by the property itself: after Shutdown returned nil no
 // session starts, a connection accepted afterwards is closed, and Serve returns nil.
-func c11ShutdownFirst(r *Result) {
+func c11ShutdownFirst(r *Result, d *drv.Driver) {
 	for _, n := range []int{1, 3} {
 		key := fmt.Sprintf("Shutdown, then Serve, then %d connection(s) arrive", n)
 		r.eval(key, true)
@@ -335,6 +335,17 @@ func c11ShutdownFirst(r *Result) {
 		if obs != want {
 			r.find(Finding{Kind: "violation", What: "a Server whose Shutdown had already returned nil went on to accept / serve connections", Input: key, Expect: want, Actual: obs})
 		}
+		// the same schedule in the transition system (Shutdown runs to completion, Serve starts, a connection arrives and is refused)
+		if d != nil {
+			if rep, err := d.Ask("shutdown S V B"); err == nil {
+				model := "ok sd=nil serve=nil started=0 open=0 late=1"
+				real := fmt.Sprintf("ok sd=%s serve=%s started=%d open=0 late=%d", map[bool]string{true: "nil", false: "err"}[sdErr == nil],
+					map[bool]string{true: "nil", false: "other"}[strings.Contains(obs, "serve=<nil>")], atomic.LoadInt32(&started), closed)
+				if rep != model || real != rep {
+					r.find(Finding{Kind: "disagreement", What: "Shutdown transition system differs from the real server (Shutdown before Serve)", Input: "S V B", Expect: rep, Actual: real})
+				}
+			}
+		}
 		// clean up whatever is still running
 		for _, cc := range clients {
 			cc.Close()
@@ -345,7 +356,7 @@ func c11ShutdownFirst(r *Result) {
 }
 
 func runC11(r *Result, d *drv.Driver, tier string, seed int64, replay string) {
-	c11ShutdownFirst(r)
+	c11ShutdownFirst(r, d)
 	maxLen := 5
 	if tier == "thorough" {
 		maxLen = 7
